@@ -452,3 +452,35 @@ func lemmaFrameCeilMono(t1, t2, refTimescale, fd, audioTimescale uint64) {
 	assert(implies(t1 <= t2, a1 <= a2))
 }
 
+
+// findRefSegMetaFromTime: an audio $Time$ address (a multiple of the audio frame duration) is
+// mapped to the reference (video) segment whose interval contains the corresponding reference time.
+//@ func findRefSegMetaFromTime
+//@   returns  (sm, err)
+//@   nowrap assumed
+//@   requires a != nil && a.refRep != nil && wfRep(a.refRep) && loopExact(a, a.refRep) && wfCfg(cfg) && 0 <= nowMS && nowMS <= maxNowMS
+//@   requires rep != nil && 0 < rep.MediaTimescale && rep.MediaTimescale <= maxTimescale && time <= maxRefTime
+//@   use      lemmaWrapDurIsRepDur(a, a.refRep)
+//@   ensures  contains: err == nil ==> exists k in [0, len(a.refRep.Segments)) :: (sm.origTime == a.refRep.Segments[k].StartTime && sm.origNr == a.refRep.Segments[k].Nr && sm.newDur == uint32(a.refRep.Segments[k].EndTime-a.refRep.Segments[k].StartTime) && a.refRep.Segments[k].EndTime > (time*uint64(a.refRep.MediaTimescale)/uint64(rep.MediaTimescale))%uint64(repDur(a.refRep)) && (k == 0 || a.refRep.Segments[k-1].EndTime <= (time*uint64(a.refRep.MediaTimescale)/uint64(rep.MediaTimescale))%uint64(repDur(a.refRep))) && sm.newTime == (time*uint64(a.refRep.MediaTimescale)/uint64(rep.MediaTimescale))/uint64(repDur(a.refRep))*uint64(repDur(a.refRep)) + a.refRep.Segments[k].StartTime && sm.newNr == uint32(uint64(k)+(time*uint64(a.refRep.MediaTimescale)/uint64(rep.MediaTimescale))/uint64(repDur(a.refRep))*uint64(len(a.refRep.Segments)))+uint32(specStartNr(cfg)))
+//@   ensures  fields: err == nil ==> sm.rep == a.refRep && sm.origDur == sm.newDur && int(sm.timescale) == a.refRep.MediaTimescale
+//@   ensures  phase: err == nil ==> exists k in [0, len(a.refRep.Segments)) :: (sm.origTime == a.refRep.Segments[k].StartTime && specPhase(specAvailRefS(a, cfg, k, (time*uint64(a.refRep.MediaTimescale)/uint64(rep.MediaTimescale))/uint64(repDur(a.refRep))), float64(nowMS)*0.001, float64(*cfg.TimeShiftBufferDepthS), cfg.AvailabilityTimeOffsetS) == phaseOK)
+//@   allocates
+//@   loop 1 invariant relNr == 0
+//@   loop 1 decreases int(relNr)
+//@   loop 2 invariant relNr < nrSegs && nrSegs == uint64(len(refRep.Segments)) && refRep == a.refRep && refEndTime == 0 && refTimeAfterWrap < refTotDur && refTotDur == uint64(repDur(a.refRep))
+//@   loop 2 invariant forall i in [0, int(relNr)) :: refRep.Segments[i].EndTime <= refTimeAfterWrap
+//@   loop 2 decreases int(nrSegs) - int(relNr)
+
+// specAvailRefS: availability time (s since epoch) of reference segment k in loop iteration w,
+// written the way findRefSegMetaFromTime computes it; lemmaRefAvailAgrees shows that it is
+// the same instant as specAvailSW used for $Number$ addressing.
+func specAvailRefS(a *asset, cfg *ResponseConfig, k int, w uint64) float64 {
+	return float64(w*uint64(repDur(a.refRep))+a.refRep.Segments[k].EndTime+uint64(cfg.StartTimeS*a.refRep.MediaTimescale)) / float64(a.refRep.MediaTimescale)
+}
+
+//@ lemma lemmaRefAvailAgrees
+//@   nowrap assumed
+//@   requires a != nil && a.refRep != nil && wfRep(a.refRep) && loopExact(a, a.refRep) && wfCfg(cfg) && 0 <= k && k < len(a.refRep.Segments) && w <= 4000000000
+//@   use      lemmaWrapDurIsRepDur(a, a.refRep)
+//@   ensures  specAvailRefS(a, cfg, k, w) == specAvailSW(a, a.refRep, cfg, k, int(w))
+func lemmaRefAvailAgrees(a *asset, cfg *ResponseConfig, k int, w uint64) {}
